@@ -341,7 +341,7 @@ def replay(ck, wd, variant, cases, label, keyfn):
     write_cases(cpath, cases)
     r = sh([exe, cpath, tpath], timeout=1200)
     if r.returncode != 0:
-        ck.violation('%s build: driver ended rc=%d' % (variant, r.returncode), r.stderr[-300:], dict(cases=[]))
+        ck.violation('%s build: kernel driver ended rc=%d%s' % (variant, r.returncode, ' (signal: an access outside an exact-extent operand array ending at an inaccessible page, or an abort)' if r.returncode < 0 else ''), r.stderr[-300:], dict(cases=[]))
         return
     v = validate_trace(wd, 'Trace_Lane', 'Trace_Lane.cfg', tpath, min_chunk=60)
     ck.add_validation(v, label)
